@@ -359,6 +359,55 @@ def Trace.step (t : Trace) : Op → Trace
 
 def runOps (t : Trace) (ops : List Op) : Trace := ops.foldl Trace.step t
 
+/-! ### one Machine used in both directions at once -/
+
+/-- operations on the receiving side of a Machine: bytes arrive, `ReadMessage` is called -/
+inductive ROp where
+  | arrive (bs : List WByte)
+  | read
+deriving Repr
+
+/-- an operation on a Machine: on its sending side or on its receiving side -/
+inductive DOp where
+  | send (op : Op)
+  | recv (op : ROp)
+deriving Repr
+
+/-- receiving side: cipher state, inbound bytes not yet consumed, results of the reads so far -/
+structure RecvSide where
+  rcv : CipherState
+  inb : List WByte
+  results : List (Except RErr Msg)
+
+def RecvSide.step (r : RecvSide) : ROp → RecvSide
+  | .arrive bs => { r with inb := r.inb ++ bs }
+  | .read =>
+    let x := readMessage r.rcv r.inb
+    { rcv := x.2.1, inb := x.2.2, results := r.results ++ [x.1] }
+
+/-- the transport part of a `Machine`: `sendCipher` + pending buffers and `recvCipher`.
+    (The code's Machine also owns scratch buffers; that they are not shared between the two
+    sides is what the full-duplex correspondence cases check.) -/
+structure Duplex where
+  tx : Trace
+  rx : RecvSide
+
+def Duplex.step (d : Duplex) : DOp → Duplex
+  | .send op => { d with tx := d.tx.step op }
+  | .recv op => { d with rx := d.rx.step op }
+
+def Duplex.run (d : Duplex) (ops : List DOp) : Duplex := ops.foldl Duplex.step d
+
+def sendPart : List DOp → List Op
+  | [] => []
+  | .send op :: r => op :: sendPart r
+  | .recv _ :: r => sendPart r
+
+def recvPart : List DOp → List ROp
+  | [] => []
+  | .send _ :: r => recvPart r
+  | .recv op :: r => op :: recvPart r
+
 /-! ### handshake -/
 
 /-- the 33-byte key field of an act as parsed by `btcec.ParsePubKey` -/
